@@ -802,6 +802,27 @@ func c03Work(c *engine.Ctx) {
 			}
 		}
 	}
+	// operand-less yield in front of every token that can follow it; restricted productions in class bodies; the
+	// automatic semicolon after an arrow function with a block body; cover grammar of arrow parameters
+	for _, a := range []asiCase{
+		{"function*g(){x=`${yield}`}", "Decl(function* g Params() Stmt({ Stmt(x=`${(yield)}`) }))", false},
+		{"function*g(){x=`a${yield}b${yield 1}c`}", "Decl(function* g Params() Stmt({ Stmt(x=`a${(yield)}b${(yield 1)}c`) }))", false},
+		{"function*g(){x=[yield]}", "Decl(function* g Params() Stmt({ Stmt(x=[(yield)]) }))", false},
+		{"function*g(){x=a?yield:yield}", "Decl(function* g Params() Stmt({ Stmt(x=(a ? (yield) : (yield))) }))", false},
+		{"class A{static\nfoo(){}}", "Decl(class A Method(static foo Params() Stmt({ })))", false},
+		{"class A{get\nfoo(){}}", "Decl(class A Method(get foo Params() Stmt({ })))", false},
+		{"class A{async\nfoo(){}}", "Decl(class A Field(async) Method(foo Params() Stmt({ })))", false},
+		{"x=a=>{}\n(b)", "Stmt(x=(Params(Binding(a)) => Stmt({ }))) Stmt((b))", false},
+		{"x=a=>{}\n[b]", "Stmt(x=(Params(Binding(a)) => Stmt({ }))) Stmt([b])", false},
+		{"([a]=[1])=>x", "Stmt(Params(Binding([ Binding(a) ] = [1])) => Stmt({ Stmt(return x) }))", false},
+		{"({a}={b:1})=>x", "Stmt(Params(Binding({ Binding(a) } = {b: 1})) => Stmt({ Stmt(return x) }))", false},
+	} {
+		emitTree(a.src, a.exp, "", false)
+	}
+	// an imported binding is a lexical declaration of the module scope
+	emitReject("import a from 'm';let a;", "redeclaration-import+let")
+	emitReject("import {a} from 'm';class a{}", "redeclaration-import+class")
+	emitReject("import * as a from 'm';const a=1;", "redeclaration-import+const")
 	for _, a := range redeclCases() {
 		if a.reject {
 			emitReject(a.src, "redeclaration "+a.exp)
